@@ -167,10 +167,11 @@ theorem add_premise_tie (store : List Res) (prems : List (Key × List Premise)) 
 
 /-! ### 5. `sorted(prem_list, key=lambda x: x.overhang_error_delta_if_applied)` -/
 
+/-- stated for the plain key function; the `>>= fun t => .ok t` the translator wraps around the key is removed by
+    `bind_ok_self` first -/
 theorem sortedByM_delta (store : List Res) (ps : List Premise) :
-    PyRt.sortedByM (fun (x : Premise) => (Premise.delta x store >>= fun (t : Int) => (.ok t : R Int))) ps
-      = sortPremsByDelta store ps := by
-  simp only [PyRt.sortedByM, sortPremsByDelta, bind_ok_self]
+    PyRt.sortedByM (fun (x : Premise) => Premise.delta x store) ps = sortPremsByDelta store ps := by
+  simp only [PyRt.sortedByM, sortPremsByDelta]
   have hf : (fun x => Except.map (fun d => (d, x)) (Premise.delta x store))
       = (fun p => do let d ← Premise.delta p store; pure (d, p)) := by
     funext p; cases Premise.delta p store <;> rfl
@@ -268,7 +269,7 @@ theorem make_fixes_tie (store : List Res) (prems : List (Key × List Premise)) (
   · cases List.foldlM (fixOne err) (store, []) (prems.map (·.2)) <;> rfl
   · intro ps s
     obtain ⟨store, fixes⟩ := s
-    simp only [sortedByM_delta]
+    simp only [bind_ok_self, sortedByM_delta]
     match ps with
     | [] => pass_simp
     | [a] => pass_simp
@@ -278,7 +279,10 @@ theorem make_fixes_tie (store : List Res) (prems : List (Key × List Premise)) (
         simp only [List.length_cons, Int.ofNat_eq_natCast]; omega
       have hc1 : Int.ofNat (a :: b :: c :: r).length > 1 := by
         simp only [List.length_cons, Int.ofNat_eq_natCast]; omega
-      simp only [hc2, hc1, decide_false, decide_true, Bool.false_eq_true, if_false, if_true]
+      -- the same two facts in `simp`'s normal form, should the translator spell `len(prem_list)` differently
+      have n2 : ¬ ((r.length : Int) + 1 + 1 + 1 = 2) := by omega
+      have n1 : (1 : Int) < (r.length : Int) + 1 + 1 + 1 := by omega
+      try simp only [hc2, hc1, decide_false, decide_true, Bool.false_eq_true, if_false, if_true]
       sort_cases (a :: b :: c :: r), store, err, pass_simp
 
 /-! ### 7. premise lists are never empty (`setdefault(fk, []).append(premise)` never leaves one) -/
